@@ -86,7 +86,12 @@ func (i *ItemIter) Next() bool {
 		return false
 	}
 	// TODO: set context based on a deadline?
-	i.iter = FetchItems(i.ctx, i.current, i.session).iter
+	nextIter := FetchItems(i.ctx, i.current, i.session)
+	if nextIter.err != nil {
+		i.err = nextIter.err
+		return false
+	}
+	i.iter = nextIter.iter
 	return i.Next()
 }
 
